@@ -200,7 +200,7 @@ Lemma np_extract_structure ps i p : np (extract_structure ps i p).
 Proof.
   unfold extract_structure. destruct (rp_K p); [|discriminate].
   destruct (_ || _); [discriminate|]. unfold new_with_params.
-  destruct (4 <? _); [discriminate|]. destruct (negb _); discriminate.
+  destruct (4 <? _); [discriminate|]. destruct (max_int64 <? _); [discriminate|]. destruct (negb _); discriminate.
 Qed.
 
 Lemma extract_all_keys pk rps structs : extract_all pk rps = Ok structs -> map fst structs = map fst rps.
